@@ -363,3 +363,44 @@ func Verif_C13_endpoint_cooldown() {
 		vs.Assert("and then succeeds with a fresh endpoint", err2 == nil && ue2 != nil && !ue2.failed.Load())
 	}
 }
+
+// Verif_C13_endpoint_invalidation: the node behind an endpoint is reported not alive. An endpoint
+// that has not carried traffic yet is retired, its transport closed once, and it is never handed
+// out again (the next packet dials anew); one that has already forwarded a packet is kept. Whether
+// the endpoint has sent is symbolic.
+func Verif_C13_endpoint_invalidation() {
+	vs.Schedules(0)
+	vs.Assume(time.Now().After(time.Unix(1000, 0)))
+	p := &UdpEndpointPool{janitorStop: make(chan struct{}), janitorDone: make(chan struct{})}
+	for i := range p.shards {
+		p.shards[i].pool = make(map[UdpEndpointKey]*UdpEndpoint, 4)
+	}
+	fd := &c13Dialer{}
+	d := &dialer.Dialer{Dialer: fd}
+	key := UdpEndpointKey{Src: netip.MustParseAddrPort("10.0.0.1:1000")}
+	opt := &UdpEndpointOptions{
+		Handler:    func(ue *UdpEndpoint, data []byte, from netip.AddrPort) error { return nil },
+		NatTimeout: 30 * time.Second,
+		GetDialOption: func(ctx context.Context) (*DialOption, error) {
+			return &DialOption{Target: "8.8.8.8:53", Dialer: d, Network: "udp"}, nil
+		},
+	}
+	ue1, _, err := p.GetOrCreate(key, opt)
+	vs.Assert("endpoint created", err == nil && ue1 != nil && fd.dials == 1)
+	carried := vs.Bool("carriedTraffic")
+	if carried {
+		_, werr := ue1.WriteTo([]byte{1}, "8.8.8.8:53")
+		vs.Assert("first packet forwarded", werr == nil)
+	}
+	nt := ue1.endpointNetworkType
+	removed := p.InvalidateDialerNetworkType(d, &nt)
+	vs.Join()
+	ue2, isNew, err := p.GetOrCreate(key, opt)
+	vs.Assert("the source is still served", err == nil && ue2 != nil)
+	if carried {
+		vs.Assert("an endpoint that has carried traffic survives the health change", removed == 0 && !isNew && ue2 == ue1 && fd.dials == 1 && fd.conns[0].closes == 0)
+	} else {
+		vs.Assert("an endpoint invalidated before carrying traffic is never handed out again", removed == 1 && isNew && ue2 != ue1 && fd.dials == 2)
+		vs.Assert("and its transport is closed exactly once", fd.conns[0].closes == 1)
+	}
+}
